@@ -62,6 +62,10 @@ fn shard_of(key: &str) -> usize {
 struct Pool {
     skeys: Vec<String>,
     hkeys: Vec<String>,
+    /// keys on which both string and hash commands run (type flips): the stamp invariant (i)
+    /// is judged for them like for every other key, the value-level consequences are not
+    /// (C06's open type-flip findings would blur them)
+    xkeys: Vec<String>,
 }
 
 fn pool() -> &'static Pool {
@@ -72,7 +76,7 @@ fn pool() -> &'static Pool {
             let k = format!("k{}", i);
             by_shard.entry(shard_of(&k)).or_default().push(k);
         }
-        let groups: Vec<&Vec<String>> = by_shard.values().filter(|v| v.len() >= 3).collect();
+        let groups: Vec<&Vec<String>> = by_shard.values().filter(|v| v.len() >= 4).collect();
         assert!(groups.len() >= 4, "key pool: not enough populated shards");
         Pool {
             skeys: vec![
@@ -82,6 +86,7 @@ fn pool() -> &'static Pool {
                 groups[2][0].clone(),
             ],
             hkeys: vec![groups[0][2].clone(), groups[1][1].clone(), groups[3][0].clone()],
+            xkeys: vec![groups[0][3].clone(), groups[2][1].clone()],
         }
     })
 }
@@ -179,10 +184,29 @@ fn local_cmd_strategy() -> impl Strategy<Value = Vec<String>> {
     let sk = (0usize..p.skeys.len()).prop_map(move |i| pool().skeys[i].clone());
     let hk = (0usize..p.hkeys.len()).prop_map(move |i| pool().hkeys[i].clone());
     let fl = (0usize..FIELDS.len()).prop_map(|i| FIELDS[i].to_string());
+    let xk = (0usize..p.xkeys.len()).prop_map(move |i| pool().xkeys[i].clone());
     let t = |parts: &[&str]| -> Vec<String> { parts.iter().map(|x| x.to_string()).collect() };
-    (sk.clone(), sk, hk, fl, 0u8..56).prop_map(move |(s, s2, h, f, which)| {
-        let (s, s2, h, f) = (s.as_str(), s2.as_str(), h.as_str(), f.as_str());
+    (sk.clone(), sk, hk, fl, xk, 0u8..78).prop_map(move |(s, s2, h, f, x, which)| {
+        let (s, s2, h, f, x) = (s.as_str(), s2.as_str(), h.as_str(), f.as_str(), x.as_str());
         match which {
+            // type flips on the flip keys: string and hash writes (and deletes) on the same key,
+            // also through the read-modify-write commands that reach the recorder
+            56..=59 => t(&["SET", x, "$V"]),
+            60..=63 => t(&["HSET", x, f, "$V"]),
+            64 => t(&["DEL", x]),
+            65 => t(&["GETSET", x, "$V"]),
+            66 => t(&["APPEND", x, "$V"]),
+            67 => t(&["INCR", x]),
+            68 => t(&["HDEL", x, f]),
+            69 => t(&["HINCRBY", x, f, "2"]),
+            70 => t(&["SET", x, "$N"]),
+            71 => t(&["HSET", x, f, "$N", "f0", "$V"]),
+            72 => t(&["SET", x, "$V", "NX"]),
+            73 => t(&["DEL", x, s]),
+            74 => t(&["GET", x]),
+            75 => t(&["HGETALL", x]),
+            76 => t(&["SET", x, "$V", "XX"]),
+            77 => t(&["HSET", x, f, "$V"]),
             // reads and server commands
             0 => t(&["GET", s]),
             1 => t(&["GET", h]),
@@ -718,6 +742,13 @@ impl<'a, 'b> H<'a, 'b> {
             self.seen_other[s] = self.seen_other[s].max(*st);
         }
 
+        if pool().xkeys.contains(&key) {
+            // flip key: the stamp invariant above is all that is judged here
+            self.ctx.label("flip_key_stamp_checked");
+            self.deliver_to_peer(&delta);
+            return Ok(());
+        }
+
         // ---- (ii)
         let mut pre: BTreeMap<String, bool> = BTreeMap::new();
         for (f, _, _) in &introduced {
@@ -1101,7 +1132,7 @@ fn check_case(case: &Case, ctx: &mut CaseCtx<'_>) -> Result<(), String> {
         if case.gossip_back {
             h.ctx.label("gossip_back");
             let p = pool();
-            let keys: Vec<String> = p.skeys.iter().chain(p.hkeys.iter()).cloned().collect();
+            let keys: Vec<String> = p.skeys.iter().chain(p.hkeys.iter()).chain(p.xkeys.iter()).cloned().collect();
             for k in keys {
                 h.echo(&k).await;
             }
